@@ -1,6 +1,7 @@
 """C02 (partial): per match type the operand layout written equals the layout read (R-PAIR, byte and
 bit level); tags decode to the variant the writer meant; every compress path (incl. raw fallback)
 has its inverse on the decompress side (R-SYM)."""
+from vlib import fixtures
 from rules import pair, sym, tagmap
 from vlib.mir import Fn, op_local
 from vlib.run import Broken
@@ -30,6 +31,7 @@ def arm_pair(ctx, fx, w, r, enums, label, rule="R-PAIR"):
 
 def run(ctx):
     fx = ctx.facts("default")
+    fixtures.run(ctx, ['pair'])
     ev = 0
     w, r = need(fx, PZ + "apply_compression_strategy"), need(fx, PZ + "decompress_match")
     ctx.analysed_fns.update([w.id, r.id])
